@@ -32,6 +32,10 @@ CHECKS = {
    text="Bounded exhaustive exploration on the implementation: every base program of length <= L over a 28-macro interacting alphabet, one journal instruction (13 well-formed and 20 malformed operand sets over the 8 opcodes) inserted at every position, on all 13 fork configurations, in normal and static frames; the program and its pop-variant are executed with full-data debug tracers and every subsequent event (stack, memory, pc, return data, refund), logs, state delta and results must be equal with gas shifted by one constant non-zero fee; malformed operands must halt the frame with all gas consumed and no effects.",
    tech="stateless bounded-exhaustive enumeration of program pairs executed on the real code, differential trace comparison (the pop-variant is the reference)",
    note="Well-formedness is re-evaluated in the live state at the journal step, so base programs that overwrite the journaled head word are judged as malformed cases."),
+ "C15": dict(cat="model_checking", ref="DESIGN.md §4 C15",
+   text="Bounded exhaustive exploration on the implementation: (a) every call tree with <= B actions over {TSTORE, TLOAD, CALL/DELEGATECALL/STATICCALL into a child} with nesting <= 3 and terminators {STOP, REVERT, INVALID}, normal and static entry, with and without a second transaction after Prepare, executed under /repo's Cancun rules and compared event by event (stack, gas, errors) with go-ethereum v1.12.0 running EIP-1153 on Shanghai rules; (b) the full product of MCOPY (dst, src, len) over a 16-value boundary alphabet x memory pre-sizes x gas limits around the consumption, judged against an EIP-5656 model (memmove, expansion to cover both ranges, copy + expansion gas, out-of-range => out of gas); (c) bytes 0x5c/0x5d/0x5e invalid on all 12 forks before Cancun.",
+   tech="stateless bounded-exhaustive enumeration of programs/operands executed on the real code vs reference implementation (EIP-1153) and reference model (EIP-5656)",
+   note="Upstream assigns EIP-1153 the bytes 0xb3/0xb4; traces are compared after renaming the two opcode bytes."),
 }
 
 NOT_YET = {}
